@@ -32,8 +32,10 @@ RULE = ("BFS over all histories of (transformation, target, option) operations "
         "6 seed routines: every operation of the full alphabet on every Loop / "
         "contiguous child range of every Schedule / parallel directive / the "
         "routine, up to bounds.depth_full, plus every history over the core "
-        "alphabet up to bounds.depth_core on bounds.core_seeds; a history is "
-        "extended only by "
+        "alphabet up to bounds.depth_core on bounds.core_seeds, plus every "
+        "history over the OpenMP serial alphabet (parallel/single/master/"
+        "taskloop) up to bounds.depth_serial on bounds.serial_seeds; a history "
+        "is extended only by "
         "operations that the real apply() accepted; states are de-duplicated on "
         "sha1(view() text + writer output); every distinct state is judged. "
         "evaluations = distinct states judged; a state is non-trivial when its "
@@ -62,9 +64,12 @@ ASSUMPTIONS = [
 # core_seeds: seeds on which the core alphabet is explored to depth_core
 TIERS = {
     "quick": {"depth_full": 2, "depth_core": 3, "block": 60,
-              "core_seeds": ["nest2", "imperf", "scal", "call"]},
+              "core_seeds": ["nest2", "imperf", "scal", "call"],
+              "depth_serial": 3, "serial_seeds": ["scal", "call"]},
     "thorough": {"depth_full": 3, "depth_core": 4, "block": 60,
-                 "core_seeds": list(core.SEED_ORDER)},
+                 "core_seeds": list(core.SEED_ORDER),
+                 "depth_serial": 4,
+                 "serial_seeds": ["imperf", "sibl", "scal", "call"]},
 }
 
 # Core alphabet: transformation -> allowed variant indices
@@ -74,6 +79,14 @@ CORE = {
     "acc_parallel": [0], "acc_kernels": [0], "acc_loop": [0, 1],
     "acc_routine": [0],
 }
+
+# Serial alphabet: histories that mix the OpenMP serial-region transformations
+# with the parallel region (SINGLE inside MASTER inside PARALLEL and the like need
+# three steps and none of them is in CORE); explored to depth_serial on the
+# small seeds serial_seeds.
+SERIAL = {"omp_parallel": [0], "omp_single": [0], "omp_master": [0],
+          "omp_taskloop": [0]}
+ALPHABETS = {"core": CORE, "serial": SERIAL}
 
 _STATE = {"tier": None, "states": None, "stats": None}
 _SCRATCH = None
@@ -96,6 +109,8 @@ def _cfg(tier):
                 cfg["depth_full"] = int(val)
             elif name == "core":
                 cfg["depth_core"] = int(val)
+            elif name == "serial":
+                cfg["depth_serial"] = int(val)
         cfg["dev_override"] = dev
     return cfg
 
@@ -111,6 +126,9 @@ def bounds(tier):
         "core_seeds": [s for s in cfg["seeds"] if s in cfg["core_seeds"]],
         "full_alphabet": {k: len(v[2]) for k, v in core.TRANS.items()},
         "core_alphabet": CORE,
+        "depth_serial": cfg["depth_serial"],
+        "serial_seeds": [s for s in cfg["seeds"] if s in cfg["serial_seeds"]],
+        "serial_alphabet": SERIAL,
         "targets": "every Loop; every contiguous child range of every "
                    "Schedule; every OMPParallelDirective (taskwait); the "
                    "Routine (enter data / routine)",
@@ -133,8 +151,9 @@ def _jobs():
 # ---------------------------------------------------------------------------
 # exploration (parent side, pool of workers)
 # ---------------------------------------------------------------------------
-def _in_core(oper):
-    return oper[0] in CORE and oper[2] in CORE[oper[0]]
+def _in_alphabet(oper, name):
+    alpha = ALPHABETS[name]
+    return oper[0] in alpha and oper[2] in alpha[oper[0]]
 
 
 def _state_digest(seed, fam, routine, written):
@@ -150,7 +169,7 @@ def _expand(task):
         raise RuntimeError(f"history no longer replays: {history} {outcomes}")
     out = []
     for oper in core.enumerate_ops(routine, fam):
-        if only_core and not _in_core(oper):
+        if only_core and not _in_alphabet(oper, only_core):
             continue
         psyir2, routine2, outc = core.build(seed, list(history) + [oper],
                                             fast=True)
@@ -162,14 +181,14 @@ def _expand(task):
     return out
 
 
-def _bfs(pool, seeds, depth, only_core):
+def _bfs(pool, seeds, depth, only_core, fams=None):
     """Level-synchronous BFS.  Returns {digest: record}; deterministic: the
     frontier is processed in order and the first history that reaches a
     state is its representative."""
     states = {}
     frontier = []
     for seed in seeds:
-        for fam in core.FAMILIES:
+        for fam in (fams or core.FAMILIES):
             psyir, routine, _ = core.build(seed, [])
             dig = _state_digest(seed, fam, routine, core.write(psyir))
             states[dig] = {"seed": seed, "fam": fam, "h": [], "d": 0,
@@ -209,22 +228,26 @@ def prepare(tier):
     _make_rundir()
     ctx = mp.get_context("fork")
     with ctx.Pool(_jobs(), initializer=_worker_init) as pool:
-        full = _bfs(pool, cfg["seeds"], cfg["depth_full"], False)
+        full = _bfs(pool, cfg["seeds"], cfg["depth_full"], None)
         cor = _bfs(pool, [s for s in cfg["seeds"] if s in cfg["core_seeds"]],
-                   cfg["depth_core"], True)
+                   cfg["depth_core"], "core")
+        ser = _bfs(pool, [s for s in cfg["seeds"] if s in cfg["serial_seeds"]],
+                   cfg["depth_serial"], "serial", ["omp"])
     merged = dict(full)
-    for dig, rec in cor.items():
-        if dig not in merged:
-            merged[dig] = rec
-        else:
+    for space in (cor, ser):
+        for dig, rec in space.items():
+            if dig not in merged:
+                merged[dig] = rec
+                continue
             old = merged[dig]
-            if old["d"] != rec["d"]:
+            if rec["d"] < old["d"]:
                 # same state at two depths: keep the shorter history
-                if rec["d"] < old["d"]:
-                    rec, old = old, rec
-                    merged[dig] = old
-            # transitions out of a state expanded by both passes: the core
-            # ones are a subset of the full ones; keep the larger count
+                rec, old = old, rec
+                merged[dig] = old
+            # transitions out of a state expanded by several passes: the
+            # sub-alphabet ones are a subset of the full ones; two
+            # sub-alphabets overlap, so the larger count is kept (a slight
+            # under-count, never an over-count)
             if rec["ntr"] > old["ntr"]:
                 old["ntr"] = rec["ntr"]
                 old["rej"] = rec["rej"]
@@ -235,6 +258,7 @@ def prepare(tier):
     _STATE["states"] = order
     _STATE["stats"] = {"states_full_space": len(full),
                        "states_core_space": len(cor),
+                       "states_serial_space": len(ser),
                        "states_union": len(merged)}
 
 
